@@ -4,4 +4,13 @@ go 1.26.0
 
 require github.com/arloliu/go-secs/v2 v2.0.0
 
+require (
+	github.com/davecgh/go-spew v1.1.1 // indirect
+	github.com/phsym/console-slog v0.3.1 // indirect
+	github.com/pmezard/go-difflib v1.0.0 // indirect
+	github.com/puzpuzpuz/xsync/v3 v3.5.1 // indirect
+	github.com/stretchr/testify v1.9.0 // indirect
+	gopkg.in/yaml.v3 v3.0.1 // indirect
+)
+
 replace github.com/arloliu/go-secs/v2 => /repo
